@@ -762,7 +762,7 @@ func genC21(c *hlib.Ctx) {
 		c.Do(fmt.Sprintf("shard %s %d %d %s %d %s %s", zaTok, rf, capa, showEps(eps), dflt, showShardOvs(ovs), strings.Join(reqs, ";")), true)
 	}
 	// configuration updates: ring A, then ring B with the same registerer and name and a changed configuration
-	for i := 0; i < c.N(60, 700) && !gaveUp(); i++ {
+	for i := 0; i < c.N(60, 400) && !gaveUp(); i++ {
 		l := pickLayout(r, ls, 9)
 		for l.total() < 3 {
 			l = pickLayout(r, ls, 9)
